@@ -1,7 +1,7 @@
 """C17 — compiles and runs are independent of history.
 
  (a) shape B: explicit-state search over sequences of compile requests on ONE
-     Parser object (26 texts: valid ones of different kinds, invalid ones that
+     Parser object (29 texts: valid ones of different kinds, invalid ones that
      fail inside a loop, a routine, a matrix block, an expression, a parameter
      list, at end of input); canonical parser state hashed for de-duplication;
      differential oracle: result, listing and error text equal a fresh Parser's.
@@ -55,6 +55,10 @@ TEXTS = [
     # a built-in function's name used as a variable / loop variable by one text, the function called by another
     'assign round 3 repeat with floor from 1 to 2 print {round + floor}',
     'print [round 2.5] print [floor 2.5]',
+    # a routine definition that fails in its header or body while it sits inside a loop, and loops with break
+    'repeat 2 begin define g with a a on all end',
+    'repeat 2 begin repeat 3 begin define h begin on all zz',
+    'repeat 2 begin on all break end repeat while {1 > 0} break',
 ]
 
 
